@@ -76,7 +76,7 @@ class MDSDRV_Converter_Test
 static std::string err_class(const std::string& m)
 {
 	struct { const char* pat; const char* cls; } tab[] = {
-		{"without a loop start", "loopCmdWithoutStart"}, {"note out of range", "noteRange"}, {"drum mode routine is inside", "drumNoteInLoop"}, {"Drum mode subroutine", "drumMissing"}, {"MDSDRV: Subroutine", "subMissing"},
+		{"note out of range", "noteRange"}, {"drum mode routine is inside", "drumNoteInLoop"}, {"Drum mode subroutine", "drumMissing"}, {"MDSDRV: Subroutine", "subMissing"},
 		{"MDSDRV: Platform command", "platformMissing"}, {"not enough parameters", "platformBad"}, {"argument must be", "platformBad"}, {"empty platform command", "platformBad"},
 		{"MDSDRV: Instrument @", "insMissing"}, {"has wrong type", "insType"}, {"Macro track", "macroMissing"},
 		{"Pitch envelope @M", "pitchMissing"}, {"without a loop start", "loopCmd"},
